@@ -74,7 +74,7 @@ CHECKS = {
              "worker_tier": "quick", "wrapper": VALGRIND, "name": "c01@valgrind-memcheck(16 of 400 slices)", "timeout": 3000},
         ],
         # 244 unprefixed instructions (the CB prefix byte itself is not one) + 256 CB-prefixed = 500 executable encodings
-        "floors": {"quick": {"evaluations": 3_000_000, "encodings-executed-x16-flags": 500}, "thorough": {"evaluations": 20_000_000, "encodings-executed-x16-flags": 1000}},
+        "floors": {"quick": {"evaluations": 3_000_000, "encodings-executed-x16-flags": 500, "cases:F9-bank-long-blocks": 100}, "thorough": {"evaluations": 20_000_000, "encodings-executed-x16-flags": 1000, "cases:F9-bank-long-blocks": 100}},
         "exhaustive": {"quick": False, "thorough": False},
         "assumptions": ["the repository's interpreter is the referee (as the property states); its own conformance is C05/C06",
                         "domain exclusions (counted): bank-register write inside a block executing from the switchable bank; blocks on which the interpreter itself panics"],
@@ -157,7 +157,7 @@ CHECKS = {
             {"variant": "interp-rel", "monitor": "c06", "shards": 16, "tiers": ("thorough",)},
             miri_phase("c06", 4000),
         ],
-        "floors": {"quick": {"evaluations": 2_000_000, "table-rows": 1000}, "thorough": {"evaluations": 8_000_000, "table-rows": 1000}},
+        "floors": {"quick": {"evaluations": 2_000_000, "table-rows": 1000, "cases:block-runner": 10_000}, "thorough": {"evaluations": 8_000_000, "table-rows": 1000, "cases:block-runner": 10_000}},
         "exhaustive": {"quick": False, "thorough": False},
         "assumptions": [REFCPU],
     },
@@ -207,8 +207,8 @@ CHECKS = {
             {"variant": "jit-dbg", "monitor": "c09", "shards": 16},
             asan_phase("c09"),
         ],
-        "floors": {"quick": {"evaluations": 3_000_000, "dispatches": 5_000, "steps:halted-or-stopped": 100_000, "run_frame-calls": 500},
-                   "thorough": {"evaluations": 30_000_000}},
+        "floors": {"quick": {"evaluations": 3_000_000, "dispatches": 5_000, "steps:halted-or-stopped": 100_000, "run_frame-calls": 500, "frame-synchronous-loops": 6},
+                   "thorough": {"evaluations": 30_000_000, "frame-synchronous-loops": 6}},
         "exhaustive": {"quick": False, "thorough": False},
         "assumptions": [REFCPU, "an unbounded 'always terminates' is restated as bounded progress in emulated time"],
     },
@@ -301,8 +301,8 @@ CHECKS = {
                    {"variant": "interp-rel", "monitor": "c15", "shards": 16, "tiers": ("thorough",)},
                    miri_phase("c15", 1920)],
         "floors": {"quick": {"evaluations": 1_800, "scenes-with-window-pixels": 300, "scenes-with-object-pixels": 450, "scenes-with-8x16-object-pixels": 180, "scenes-with-more-than-10-objects-on-a-line": 150,
-                             "second-frames-after-a-change-in-vblank": 900},
-                   "thorough": {"evaluations": 19_000}},
+                             "second-frames-after-a-change-in-vblank": 900, "frames-through-the-memory-bus": 400, "oam-transfers-during-those-frames": 500},
+                   "thorough": {"evaluations": 19_000, "frames-through-the-memory-bus": 4_000}},
         "exhaustive": {"quick": False, "thorough": False},
         "assumptions": ["DMG behaviour; registers, VRAM and OAM constant over the frame, LCD and BG enabled (as the property states)"],
     },
@@ -314,7 +314,7 @@ CHECKS = {
                 "returns at that time, min(remaining, cycles) of them, nothing else written (RAM digests), inactive exactly after 160 cycles, final OAM equal across partitions. "
                 "distinct_nontrivial = distinct source pages",
         "phases": [{"variant": "interp-dbg", "monitor": "c16", "shards": 16}, asan_phase("c16", variant="interp-asan")],
-        "floors": {"quick": {"evaluations": 8_000, "restarts": 3_000, "bytes-copied-and-checked": 1_500_000}, "thorough": {"evaluations": 40_000}},
+        "floors": {"quick": {"evaluations": 8_000, "restarts": 3_000, "bytes-copied-and-checked": 1_500_000, "partition-sets-under-other-device-configurations": 50}, "thorough": {"evaluations": 40_000, "partition-sets-under-other-device-configurations": 50}},
         "exhaustive": {"quick": False, "thorough": False},
         "assumptions": ["source values are sampled by the monitor immediately before each batch, i.e. at catch-up granularity"],
     },
